@@ -101,7 +101,7 @@ def run(res):
 
 def _run(res, work):
     broken = []   # proof obligations / translator problems: need the search below
-    ok, tlog = common.regen_tables()
+    ok, tlog = common.regen_tables("C11")
     if not ok:
         broken.append(("translator", "site inventory extraction failed", tlog))
     lean = common.lean_obligations(PROP, res.tier)
